@@ -31,14 +31,14 @@ def budget(tier):
 
 @st.composite
 def cases(draw):
-    kind = draw(st.sampled_from(['suffix', 'suffix', 'edit', 'edit', 'resync', 'resync', 'keys', 'repo']))
+    kind = draw(st.sampled_from(['suffix', 'suffix', 'suffix', 'edit', 'edit', 'edit', 'resync', 'resync', 'resync', 'keys', 'keys', 'repo']))
     kseed = draw(st.integers(0, 2 ** 32))
     dseed = draw(st.integers(0, 2 ** 32))
     if kind == 'repo':
-        W = draw(st.integers(4, 8)) * 4
+        W = draw(st.integers(4, 6)) * 4
         return {'kind': 'repo', 'max': W, 'min': draw(st.integers(1, max(1, W // 16))), 'dseed': dseed, 'kseed': kseed,
                 'encrypted': draw(st.booleans()), 'small': draw(st.integers(1, 9)), 'small2': draw(st.integers(0, 11)),
-                'big': [draw(st.integers(250, 400)) for _ in range(draw(st.integers(2, 3)))], 'n': draw(st.sampled_from([1, 2, 4])),
+                'big': [draw(st.integers(530, 560))] + [draw(st.integers(20, 60)) for _ in range(draw(st.integers(0, 1)))], 'n': draw(st.sampled_from([2, 4])),
                 'edit': draw(st.sampled_from(['resize-first', 'resize-first', 'replace-middle']))}
     if kind in ('resync', 'keys'):
         W = draw(st.integers(4, 64)) * 4
